@@ -21,9 +21,17 @@ def in_range(c):
 
 def main():
     chk = Check('C09')
+    tasks = build(chk, os.environ.get('VERIF_ONLY', ''))
+    chk.run_tasks(tasks)
+    chk.discharge()
+    chk.finish()
+
+
+def build(chk, only=''):
+    """append this check's tasks (restricted to the groups named in `only`) to a task list; also used by the checks that
+    depend on this one's contracts (common.include_dependency)"""
     prog = load_prog()
     gl = load_globals(prog)
-    only = os.environ.get('VERIF_ONLY', '')
     chk.summaries.update(models.VALUE_MODEL_SUMMARY)
     chk.stubs += stubs.STUB_NOTES
     tasks = []
@@ -284,9 +292,7 @@ def main():
         chk.bounds.append('drbgRFC6979: all x in [1,n), all e in [0,n); candidate sequences of 1..%d successive reads compared term by term with RFC 6979 section 3.2 (d-h)' % (8 if chk.thorough else 4))
         chk.outside.append('statistical uniformity of the XOF/HMAC output; more than %d successive reads' % (8 if chk.thorough else 4))
 
-    chk.run_tasks(tasks)
-    chk.discharge()
-    chk.finish()
+    return tasks
 
 
 if __name__ == '__main__':
